@@ -352,8 +352,10 @@ func (p *asyncProducer) dispatcher() {
 			p.inFlight.Add(1)
 		}
 
-		for _, interceptor := range p.conf.Producer.Interceptors {
-			msg.safelyApplyInterceptor(interceptor)
+		if msg.retries == 0 && msg.flags == 0 {
+			for _, interceptor := range p.conf.Producer.Interceptors {
+				msg.safelyApplyInterceptor(interceptor)
+			}
 		}
 
 		version := 1
